@@ -70,17 +70,17 @@ type Op struct {
 }
 
 type opGen struct {
-	r        *hx.Rand
-	schema   *ast.Schema
-	data     *Data
-	o        OpOptions
-	vars     map[string]interface{}
-	varDefs  []string
-	frags    []string
-	nfrag    int
-	nvar     int
-	features map[string]bool
-	fragsOn  map[string][]string // fragment names by type condition (for re-spreading: MultiSpread)
+	r         *hx.Rand
+	schema    *ast.Schema
+	data      *Data
+	o         OpOptions
+	vars      map[string]interface{}
+	varDefs   []string
+	frags     []string
+	nfrag     int
+	nvar      int
+	features  map[string]bool
+	fragsOn   map[string][]string // fragment names by type condition (for re-spreading: MultiSpread)
 	usedIDVar bool
 }
 
